@@ -6,6 +6,7 @@ import numpy as np
 
 from .. import gen
 from ..model import kkt_violations, weights_of
+from ..devices import site_has
 from ..runner import execute
 from .common import V, chain_accept, finite_result, knob_key, seam_violations, small_sample
 
@@ -141,7 +142,7 @@ def _oracle(world, R, F, fset, sub, stats):
             bump("fired.region")
         if fset[idx].get("at_x0"):
             bump("fired.x0")
-        if "check_eval" in site:
+        if site_has(site, "check_eval"):
             bump("fired.on_check_eval")
     for (op, k, site) in fired_lin:
         bump("fired.lin." + op)
